@@ -321,7 +321,8 @@ def sibling_part(rng, backend, decl, built, meta):
     split = decl["hash"]["split"]
     hv = decl["hash"]["vars"][:split["nbase"]] + split["sib"]
     D = dict(avars=[], ncpu=backend.ncpu, lvars=[], dicts=[], prog=[],
-             hvars=[dict(c=v["fmt"][-1], **{"def": M.word(v["default"])}) for v in hv])
+             hvars=[dict(c=v["fmt"][-1], **{"def": M.word(round(v["default"] * M.SCALE) if v["fmt"] == "x"
+                                                            else v["default"])}) for v in hv])
     ev = []
     smeta = dict(ident=meta["ident"] + "/sibling", decl=decl, stmts=[], trace=dict(decl=D, ev=ev), built=False,
                  mode=backend.mode, sibling=True)
@@ -338,6 +339,8 @@ def sibling_part(rng, backend, decl, built, meta):
             for i, v in enumerate(hv):
                 try:
                     got = getattr(sess.inst, v["name"])
+                    if v["fmt"] == "x":          # a decimal: its abstract value is the number scaled by 100000
+                        got = M.scaled(got)
                     ok = isinstance(got, int) and not isinstance(got, bool) and abs(got) < 1 << 70
                     ev.append(M.event("pyread_h", id=i + 1, v=M.word(got)) if ok else
                               M.event("pyread_h", id=i + 1, res="not a value of the format"))
@@ -345,9 +348,13 @@ def sibling_part(rng, backend, decl, built, meta):
                     ev.append(M.event("pyread_h", id=i + 1, res=M.exc_name(e)))
             if round_ == 0:
                 for i, v in enumerate(hv):
-                    n = mapdecl.rand_value(rng, v["fmt"])
+                    if v["fmt"] == "x":
+                        n = rng.choice([rng.randint(-300, 300) * M.SCALE, rng.randint(-10 ** 7, 10 ** 7)])
+                        val = n / M.SCALE
+                    else:
+                        n = val = mapdecl.rand_value(rng, v["fmt"])
                     try:
-                        setattr(sess.inst, v["name"], n)
+                        setattr(sess.inst, v["name"], val)
                         ev.append(M.event("pywrite_h", id=i + 1, v=M.word(n)))
                     except Exception as e:       # noqa
                         ev.append(M.event("pywrite_h", id=i + 1, v=M.word(n), res=M.exc_name(e)))
